@@ -1,113 +1,27 @@
 package c07
 
-// avoid lists the constructs that fail on the pinned tree and are listed
-// open in findings/C07.json. The clean stream of the generator does not
-// produce them; the cell block and the dirty minority stream do.
+// avoid lists the constructs that fail on the current tree and are listed open in
+// findings/C07.json. The clean stream of the generator does not produce them;
+// the cell block and the dirty minority stream do.
 var avoid = map[string]bool{
-	"exit=go through=and.arg":                             true,
-	"exit=go through=block.body":                          true,
-	"exit=go through=call.arg":                            true,
-	"exit=go through=case.body":                           true,
-	"exit=go through=case.key":                            true,
-	"exit=go through=closure.body":                        true,
-	"exit=go through=cond.body":                           true,
-	"exit=go through=cond.test":                           true,
-	"exit=go through=do*.body":                            true,
-	"exit=go through=do*.init":                            true,
-	"exit=go through=do*.result":                          true,
-	"exit=go through=do*.step":                            true,
-	"exit=go through=do*.test":                            true,
-	"exit=go through=do.body":                             true,
-	"exit=go through=do.init":                             true,
-	"exit=go through=do.result":                           true,
-	"exit=go through=do.step":                             true,
-	"exit=go through=do.test":                             true,
-	"exit=go through=dolist.body":                         true,
-	"exit=go through=dolist.list":                         true,
-	"exit=go through=dotimes.body":                        true,
-	"exit=go through=dotimes.count":                       true,
-	"exit=go through=funcall-lambda.body":                 true,
-	"exit=go through=if.test":                             true,
-	"exit=go through=ignore-errors.body":                  true,
-	"exit=go through=let*.init":                           true,
-	"exit=go through=let.init":                            true,
-	"exit=go through=mapcar-lambda.body":                  true,
-	"exit=go through=mapcar-lambda.last":                  true,
-	"exit=go through=multiple-value-bind.values":          true,
-	"exit=go through=progn.body":                          true,
-	"exit=go through=recover.body":                        true,
-	"exit=go through=unless.body":                         true,
-	"exit=go through=unless.test":                         true,
-	"exit=go through=when.body":                           true,
-	"exit=go through=when.test":                           true,
-	"exit=go through=with-mutex-lock.body":                true,
-	"exit=go through=with-open-file.body":                 true,
-	"exit=go to=none":                                     true,
-	"exit=return through=and.arg":                         true,
-	"exit=return through=call.arg":                        true,
-	"exit=return through=case.body":                       true,
-	"exit=return through=case.key":                        true,
-	"exit=return through=cond.body":                       true,
-	"exit=return through=cond.test":                       true,
-	"exit=return through=if.test":                         true,
-	"exit=return through=ignore-errors.body":              true,
-	"exit=return through=let*.init":                       true,
-	"exit=return through=let.init":                        true,
-	"exit=return through=mapcar-lambda.body":              true,
-	"exit=return through=mapcar-lambda.last":              true,
-	"exit=return through=multiple-value-bind.values":      true,
-	"exit=return through=progn.body":                      true,
-	"exit=return through=recover.body":                    true,
-	"exit=return through=unless.body":                     true,
-	"exit=return through=unless.test":                     true,
-	"exit=return through=when.body":                       true,
-	"exit=return through=when.test":                       true,
-	"exit=return through=with-mutex-lock.body":            true,
-	"exit=return through=with-open-file.body":             true,
-	"exit=return to=do*.init":                             true,
-	"exit=return to=do*.result":                           true,
-	"exit=return to=do*.step":                             true,
-	"exit=return to=do*.test":                             true,
-	"exit=return to=do.init":                              true,
-	"exit=return to=do.result":                            true,
-	"exit=return to=do.step":                              true,
-	"exit=return to=do.test":                              true,
-	"exit=return to=dolist.list":                          true,
-	"exit=return to=dolist.result":                        true,
-	"exit=return to=dotimes.count":                        true,
-	"exit=return to=dotimes.result":                       true,
-	"exit=return to=none":                                 true,
-	"exit=return-from through=and.arg":                    true,
-	"exit=return-from through=call.arg":                   true,
-	"exit=return-from through=case.body":                  true,
-	"exit=return-from through=case.key":                   true,
-	"exit=return-from through=cond.body":                  true,
-	"exit=return-from through=cond.test":                  true,
-	"exit=return-from through=do*.init":                   true,
-	"exit=return-from through=do*.result":                 true,
-	"exit=return-from through=do*.step":                   true,
-	"exit=return-from through=do*.test":                   true,
-	"exit=return-from through=do.body":                    true,
-	"exit=return-from through=do.init":                    true,
-	"exit=return-from through=do.result":                  true,
-	"exit=return-from through=do.step":                    true,
-	"exit=return-from through=do.test":                    true,
-	"exit=return-from through=dolist.list":                true,
-	"exit=return-from through=dotimes.count":              true,
-	"exit=return-from through=if.test":                    true,
-	"exit=return-from through=ignore-errors.body":         true,
-	"exit=return-from through=let*.init":                  true,
-	"exit=return-from through=let.init":                   true,
-	"exit=return-from through=mapcar-lambda.body":         true,
-	"exit=return-from through=mapcar-lambda.last":         true,
-	"exit=return-from through=multiple-value-bind.values": true,
-	"exit=return-from through=progn.body":                 true,
-	"exit=return-from through=recover.body":               true,
-	"exit=return-from through=unless.body":                true,
-	"exit=return-from through=unless.test":                true,
-	"exit=return-from through=when.body":                  true,
-	"exit=return-from through=when.test":                  true,
-	"exit=return-from through=with-mutex-lock.body":       true,
-	"exit=return-from through=with-open-file.body":        true,
-	"exit=return-from to=none":                            true,
+	"exit=go through=mapc-lambda.body":             true,
+	"exit=go through=mapc-lambda.last":             true,
+	"exit=go through=mapl-lambda.body":             true,
+	"exit=go through=mapl-lambda.last":             true,
+	"exit=go through=maplist-lambda.body":          true,
+	"exit=go through=maplist-lambda.last":          true,
+	"exit=go to=none":                              true,
+	"exit=return through=mapc-lambda.body":         true,
+	"exit=return through=mapc-lambda.last":         true,
+	"exit=return through=mapl-lambda.body":         true,
+	"exit=return through=mapl-lambda.last":         true,
+	"exit=return through=maplist-lambda.body":      true,
+	"exit=return through=maplist-lambda.last":      true,
+	"exit=return to=prog.init":                     true,
+	"exit=return-from through=mapc-lambda.body":    true,
+	"exit=return-from through=mapc-lambda.last":    true,
+	"exit=return-from through=mapl-lambda.body":    true,
+	"exit=return-from through=mapl-lambda.last":    true,
+	"exit=return-from through=maplist-lambda.body": true,
+	"exit=return-from through=maplist-lambda.last": true,
 }
